@@ -68,6 +68,8 @@ pub struct Out {
     cases: u64,
     /// comparisons of an observation of the real code with the model
     pub checks: u64,
+    /// inputs executed inside coarse cases (one case may run many inputs)
+    pub units: u64,
     /// explicit-state explorer: distinct states visited (E1)
     pub states: u64,
     /// explicit-state explorer: transitions executed (E1)
@@ -100,6 +102,7 @@ impl Out {
             tid,
             cases: 0,
             checks: 0,
+            units: 0,
             states: 0,
             edges: 0,
             case_hashes: HashSet::new(),
@@ -222,10 +225,30 @@ fn parse_args() -> Args {
             "--replay" => a.replay = it.next().map(PathBuf::from),
             "--threads" => a.threads = it.next().and_then(|s| s.parse().ok()).unwrap_or(a.threads),
             "--seed" => a.seed = it.next().and_then(|s| s.parse().ok()).unwrap_or(a.seed),
+            "--opt" => {
+                it.next();
+            }
             other => die(&format!("unknown argument {other}")),
         }
     }
     a
+}
+
+/// Value of a `--opt key=value` argument (check-specific switches, e.g. first-touch order in C14).
+pub fn opt(key: &str) -> Option<String> {
+    let mut it = std::env::args().skip(1);
+    while let Some(x) = it.next() {
+        if x == "--opt" {
+            if let Some(kv) = it.next() {
+                if let Some((k, v)) = kv.split_once('=') {
+                    if k == key {
+                        return Some(v.to_string());
+                    }
+                }
+            }
+        }
+    }
+    None
 }
 
 fn die(msg: &str) -> ! {
@@ -440,6 +463,7 @@ fn result_json(
     let mut checks = 0;
     let mut states = 0;
     let mut edges = 0;
+    let mut units = 0;
     let mut ch: HashSet<u64> = HashSet::new();
     let mut oc: HashSet<u64> = HashSet::new();
     let mut dims: BTreeMap<&'static str, BTreeSet<i64>> = BTreeMap::new();
@@ -452,6 +476,7 @@ fn result_json(
         checks += o.checks;
         states += o.states;
         edges += o.edges;
+        units += o.units;
         ch.extend(o.case_hashes.iter().copied());
         oc.extend(o.outcomes.iter().copied());
         for (k, v) in &o.dims {
@@ -505,6 +530,7 @@ fn result_json(
         "cases": cases,
         "distinct_cases": ch.len(),
         "checks": checks,
+        "units": units,
         "states": states,
         "edges": edges,
         "distinct_outcomes": oc.len(),
